@@ -384,6 +384,52 @@ func checkC07(p *core.Program, r *core.Report) {
 		if nem < 2 {
 			r.Fail(R3, name+" emits rewritten children", p.Pos(rw.Pos()), "expected an object-member and an array-element emission")
 		}
+		// emitted containers are never nil (an empty array/object must not become null)
+		core.EachInstr(rw, func(in ssa.Instruction) {
+			ret, ok := in.(*ssa.Return)
+			if !ok || len(ret.Results) != 1 {
+				return
+			}
+			v := core.ResultOf(ret, 0)
+			mi, ok := v.(*ssa.MakeInterface)
+			if !ok {
+				return
+			}
+			if _, isSlice := mi.X.Type().Underlying().(*types.Slice); !isSlice {
+				return
+			}
+			nilRoot := false
+			seen := map[ssa.Value]bool{}
+			var walk func(x ssa.Value, d int)
+			walk = func(x ssa.Value, d int) {
+				if d > 8 || x == nil || seen[x] {
+					return
+				}
+				seen[x] = true
+				if core.IsNilConst(x) {
+					nilRoot = true
+					return
+				}
+				switch y := x.(type) {
+				case *ssa.Phi:
+					for _, e := range y.Edges {
+						walk(e, d+1)
+					}
+				case *ssa.Call:
+					if isBuiltin(y, "append") {
+						// append(nil) of zero elements stays nil: only the accumulator root matters
+						walk(y.Call.Args[0], d+1)
+					}
+				}
+			}
+			walk(mi.X, 0)
+			key := name + " emits non-nil containers"
+			if nilRoot {
+				r.Fail(R3, key, p.Pos(ret.Pos()), "the rewritten container starts as a nil slice: an empty array (or object) is encoded as null instead of []")
+			} else {
+				r.OK(R3, key, p.Pos(ret.Pos()), "accumulators are allocated (make)")
+			}
+		})
 		// default returns the input
 		okDefault := false
 		core.EachInstr(rw, func(in ssa.Instruction) {
@@ -399,6 +445,59 @@ func checkC07(p *core.Program, r *core.Report) {
 			r.Fail(R3, name+" returns scalars unchanged", p.Pos(rw.Pos()), "no path returns the input value itself")
 		}
 	}
+
+	// ---- R6 the converted document does not alias storage that outlives the call
+	const R6 = "C07.R6 result-freshly-allocated"
+	r.Rule(R6, "the byte slice returned by the inverse transform is built in a buffer allocated by this call (make / append to nil), not in pooled, global or caller-owned storage")
+	core.EachInstr(from, func(in ssa.Instruction) {
+		ret, ok := in.(*ssa.Return)
+		if !ok || ret.Block() == from.Recover || len(ret.Results) != 1 {
+			return
+		}
+		fresh, why := true, ""
+		seen := map[ssa.Value]bool{}
+		var walk func(x ssa.Value, d int)
+		walk = func(x ssa.Value, d int) {
+			if d > 12 || x == nil || seen[x] {
+				return
+			}
+			seen[x] = true
+			switch y := x.(type) {
+			case *ssa.MakeSlice:
+			case *ssa.Const:
+			case *ssa.Phi:
+				for _, e := range y.Edges {
+					walk(e, d+1)
+				}
+			case *ssa.Slice:
+				walk(y.X, d+1)
+			case *ssa.Call:
+				n := core.CalleeName(&y.Call)
+				switch {
+				case isBuiltin(y, "append"):
+					walk(y.Call.Args[0], d+1)
+				case n == "bytes.Trim" || n == "bytes.TrimRight" || n == "bytes.TrimLeft" || n == "bytes.TrimSpace":
+					walk(y.Call.Args[0], d+1)
+				case n == "bytes.Clone" || n == "slices.Clone" || n == "bytes.ReplaceAll" || n == "bytes.Replace":
+					// returns a copy
+				default:
+					fresh, why = false, "result of "+n
+				}
+			case *ssa.Parameter:
+				fresh, why = false, "the input slice itself"
+			default:
+				fresh, why = false, fmt.Sprintf("%T", x)
+			}
+		}
+		walk(core.ResultOf(ret, 0), 0)
+		key := shortFn(p.FnName(from)) + " result"
+		if fresh {
+			r.OK(R6, key, p.Pos(ret.Pos()), "backing array allocated by this call")
+		} else {
+			r.Fail(R6, key, p.Pos(ret.Pos()), "the returned document shares its backing array with storage that outlives the call ("+why+"): a later conversion overwrites a document a caller still holds")
+		}
+	})
+	r.Floor(R6, 1)
 
 	// ---- R5 scanner of the inverse direction
 	checkScanner(p, r, R5, from)
